@@ -1,0 +1,25 @@
+//! Verification-only instrumentation. Compiled only with `--cfg dds_verif`.
+//!
+//! A process-global callback that is invoked by the parallel encoder at the
+//! start of each fragment job (phase 0) and after the fragment has been encoded
+//! but before its completion is submitted (phase 1). A test harness can block
+//! inside the callback to impose start and completion orders on the workers.
+
+use std::sync::{Arc, RwLock};
+
+pub type FragmentHook = Arc<dyn Fn(usize, u8) + Send + Sync>;
+
+static HOOK: RwLock<Option<FragmentHook>> = RwLock::new(None);
+
+/// Installs (or removes) the fragment callback.
+pub fn set_fragment_hook(hook: Option<FragmentHook>) {
+    *HOOK.write().unwrap_or_else(|e| e.into_inner()) = hook;
+}
+
+#[cfg_attr(not(feature = "rayon"), allow(dead_code))]
+pub(crate) fn fragment(index: usize, phase: u8) {
+    let hook = HOOK.read().unwrap_or_else(|e| e.into_inner()).clone();
+    if let Some(hook) = hook {
+        hook(index, phase);
+    }
+}
